@@ -141,6 +141,7 @@ fn main() {
             runner = c20::RUNNER;
         }
         "SM" | "C02" | "C04" | "C05" | "C06" | "C07" | "C08" | "C09" | "C10" | "C11" | "C12" | "C14" | "C18" => {
+            if args.prop == "C11" { sm::ABANDON_PROBE.store(true, std::sync::atomic::Ordering::SeqCst); }
             if args.replay.is_none() {
                 let k = smgen::knobs_for(&args.prop);
                 for _ in 0..args.n { inputs.push(smgen::gen_sm(&mut rng, &k)); }
